@@ -131,19 +131,27 @@ def job(a):
     y2 = []
     first = alpha[shard::nshards] if nshards > 1 else alpha
     buf = np.zeros(d, float)  # one input buffer, overwritten in place
+    sbig = np.full(2 * d, 0.25)  # holds the vector as a strided view
     extra = len(key) > 4 and key[4] > 0
     for x0 in first:
         for rest in itertools.product(alpha, repeat=d - 1):
             x = np.array((x0,) + rest, float)
             try:
                 # the long-lived decoder sees the reused buffer, a fresh
-                # decoder sees a fresh array: results must be equal
+                # decoder sees another array: results must be equal
                 buf[:] = x
                 dec.decode(buf, y)
                 if extra:
                     y2 = y  # additional templates: one decoding per vector
                 else:
-                    InstanceDecoder(sp).decode(x.copy(), y2)
+                    # ... in another legal memory layout: every second
+                    # element of a longer buffer, alternately reversed
+                    if cnt % 2:
+                        sbig[::2] = x
+                        InstanceDecoder(sp).decode(sbig[::2], y2)
+                    else:
+                        sbig[::2] = x[::-1]
+                        InstanceDecoder(sp).decode(sbig[::2][::-1], y2)
             except Exception as e:  # noqa
                 bads.append(("decoder|raises", key, rows_t,
                              [float(v) for v in x], [],
@@ -390,4 +398,19 @@ def replay(ctx: Ctx, rep: dict) -> bool:
     check_instance(key, rep["template"], y[0], rep["x"], {}, bads)
     print(np.asarray(y[0]).tolist(), "lower bound", y[0].lower_bound_bins,
           "min_bins", sp.min_bins, bads)
+    # the same vector as a strided and as a reversed view
+    xv = np.array(rep["x"], float)
+    big = np.full(2 * len(xv), 0.25)
+    for lname, mk in (("strided view", lambda: big[::2]),
+                      ("reversed strided view", lambda: big[::2][::-1])):
+        big[::2] = xv if lname == "strided view" else xv[::-1]
+        y2 = []
+        try:
+            InstanceDecoder(sp).decode(mk(), y2)
+            same = np.array_equal(np.asarray(y2[0]), np.asarray(y[0]))
+        except Exception as e:  # noqa
+            same = False
+            print(f"{lname}: {type(e).__name__}: {e}")
+        if not same:
+            bads.append(f"vector handed over as {lname}: other result")
     return not bads
